@@ -145,7 +145,10 @@ def gen_axil_script(rng, dw, base, n):
     return writes, reads
 
 
-def gen_axi_script(rng, dw, base, n, narrow=True):
+def gen_axi_script(rng, dw, base, n, narrow=True, feature=None):
+    """feature (C10): restricts the bursts to one feature class: 'wrap' (full size), 'fixed' (full size, aligned),
+    'narrow' (INCR, size < bus, aligned to size), 'unaligned' (INCR, full size, unaligned start), 'incr' (INCR, full size,
+    aligned to the bus word, any length)"""
     nb = dw // 8
     smax = nb.bit_length() - 1
     writes, reads = [], []
@@ -156,7 +159,15 @@ def gen_axi_script(rng, dw, base, n, narrow=True):
             size = rng.choice([smax, smax, rng.randint(0, smax)]) if narrow else smax
             ln = rng.choice([0, 0, 1, 2, 3, 5, 7, 15]) if burst != axm.WRAP else rng.choice([1, 3, 7, 15])
             addr = rng.randrange(WORDS * nb)
-            if burst == axm.WRAP or rng.random() < 0.6:
+            if feature is not None:
+                burst = {"wrap": axm.WRAP, "fixed": axm.FIXED}.get(feature, axm.INCR)
+                size = smax if feature != "narrow" else rng.randint(0, max(0, smax - 1))
+                ln = rng.choice([1, 3, 7, 15]) if burst == axm.WRAP else rng.choice([0, 1, 2, 3, 4, 5, 7, 8, 15])
+                if feature != "unaligned":
+                    addr &= ~((1 << size) - 1)
+                elif addr % nb == 0:
+                    addr += rng.randrange(1, nb)
+            elif burst == axm.WRAP or rng.random() < 0.6:
                 addr &= ~((1 << size) - 1)
             if not axm.legal(addr, ln, size, burst, nb):
                 continue
